@@ -7,7 +7,7 @@
 From Coq Require Import List ZArith NArith Bool.
 From Coq.Strings Require Import Byte.
 Import ListNotations.
-From SV Require Import Text C05_Model G_gc_ids G_c07_tabs C07_Model C07_Lemmas C07_Spec C07_Tables C07_Gaps C07_Wrap C07_Main.
+From SV Require Import Text C05_Model G_gc_ids G_c07_tabs C07_Model C07_Lemmas C07_Spec C07_Tables C07_Gaps C07_Wrap C07_Main C07_Cli C07_Warn.
 
 (* RNA is translated like DNA *)
 Theorem C07_tu_equiv : forall t o l, translate t o (u2t l) = translate t o l.
@@ -179,6 +179,126 @@ Theorem C07_basket_translate : forall t o b,
 Proof. exact basket_translate_spec. Qed.
 Print Assumptions C07_basket_translate.
 
+(* ---- the command line entry point `sugar translate` (sugar/scripts.py), string or file input.
+   cli_arg = ATt n (-tt n / --translation-table n) | AComplete (-c / --complete); cli_tt / cli_opts: what run() hands to translate().
+   Decision table: the LAST -tt names the table (table 1 without one); complete iff some -c; every other option has the default of
+   the signature, so a start check is made iff not complete and the terminal stop is written iff complete *)
+Theorem C07_cli_options : forall args,
+  cli_tt args = match last_tt args with Some n => n | None => 1%N end /\
+  o_complete (cli_opts args) = cli_complete args /\
+  eff_check_start (cli_opts args) = negb (cli_complete args) /\
+  o_check_stop (cli_opts args) = false /\
+  eff_final_stop (cli_opts args) = cli_complete args /\
+  o_astop (cli_opts args) = "X"%byte /\ o_gap (cli_opts args) = Some "-"%byte /\ o_gap_after (cli_opts args) = Some 2%Z /\
+  (cli_complete args = true <-> In AComplete args).
+Proof. exact cli_options. Qed.
+Print Assumptions C07_cli_options.
+
+(* "the last -tt": nothing after it names a table; and without any -tt there is none *)
+Theorem C07_cli_last_tt : forall args,
+  (forall n, last_tt args = Some n -> exists p q, args = p ++ ATt n :: q /\ forall m, ~ In (ATt m) q) /\
+  (last_tt args = None <-> forall n, ~ In (ATt n) args).
+Proof. exact (fun args => conj (last_tt_split args) (last_tt_None args)). Qed.
+Print Assumptions C07_cli_last_tt.
+
+(* whatever the options, the command line is inside the option domain of the property for every shipped table *)
+Theorem C07_cli_in_domain : forall k t args, In (k, t) tabs ->
+  opts_ok t (cli_opts args) = true /\ lines_ok (cli_opts args) = true.
+Proof. exact cli_opts_ok. Qed.
+Print Assumptions C07_cli_in_domain.
+
+(* string input: one translation per line, in order; the call fails iff some line raises (the first such line decides) *)
+Theorem C07_cli_lines : forall t o s,
+  (forall outs, script_str t o s = inl outs <-> Forall2 (fun l a => translate t o l = Ok a) (splitlines s) outs) /\
+  (forall e, script_str t o s = inr e <->
+     exists p l r outs, splitlines s = p ++ l :: r /\ Forall2 (fun l a => translate t o l = Ok a) p outs /\ translate t o l = Err e).
+Proof. exact cli_lines. Qed.
+Print Assumptions C07_cli_lines.
+
+(* the lines are the lines: splitlines inverts "\n".join on newline-free lines whose last one is not empty *)
+Theorem C07_splitlines_join : forall ls, forallb no_nl ls = true -> last ls [cNL] <> [] -> splitlines (join_nl ls) = ls.
+Proof. exact splitlines_join. Qed.
+Print Assumptions C07_splitlines_join.
+
+(* a one-line text of the domain: what is printed is, up to gap symbols, the codon-level specification of the degapped text under
+   the selected table; the call fails exactly when the specification raises *)
+Theorem C07_cli_follows_table : forall t o s, no_nl s = true -> s <> [] -> wf_C07 t o s = true ->
+  match script_str t o s with
+  | inl [a] => spec_translate t o (u2t (degap_in o s)) = Ok (degap_out o a)
+  | inl _ => False
+  | inr e => spec_translate t o (u2t (degap_in o s)) = Err e
+  end.
+Proof. exact cli_follows_table. Qed.
+Print Assumptions C07_cli_follows_table.
+
+(* baskets are maps: BioBasket.translate gives, record by record, the translation (type aa), or stops with the first error *)
+Theorem C07_basket_is_map : forall t o b,
+  match map_res (translate t o) (map b_data b) with
+  | inl outs => basket_translate t o b = (map mk_aa outs, None)
+  | inr e => snd (basket_translate t o b) = Some e
+  end.
+Proof. exact basket_map_res. Qed.
+Print Assumptions C07_basket_is_map.
+
+(* file input of the command line: the records of the file (upper-cased by BioSeq) translated as a basket *)
+Theorem C07_cli_file : forall t o recs,
+  match map_res (translate t o) (map (map upper1) recs) with
+  | inl outs => script_recs t o recs = (map mk_aa outs, None)
+  | inr e => snd (script_recs t o recs) = Some e
+  end.
+Proof. exact cli_file. Qed.
+Print Assumptions C07_cli_file.
+
+(* gcode(tt) finds the table by str(tt): an int and its decimal string name the same table, the one with that id *)
+Theorem C07_tt_int_or_str : forall k,
+  gcode_lookup (TStr (dec_N k)) = gcode_lookup (TInt k) /\
+  gcode_lookup (TInt k) = option_map (pair k) (lookup_tab k tabs).
+Proof. exact tt_key_spec. Qed.
+Print Assumptions C07_tt_int_or_str.
+
+(* T/U spelling never matters, with gaps and every option: all-U, all-T and any mixture translate alike; on the domain the
+   degapped output is the translation of the T-normalised degapped text, and degapping commutes with the normalisation *)
+Theorem C07_tu_spelling : forall t o l,
+  (forall l2, u2t l = u2t l2 -> translate t o l = translate t o l2) /\
+  translate t o (t2u l) = translate t o l /\ translate t o (u2t l) = translate t o l /\
+  (wf_C07 t o l = true ->
+     res_degap o (translate t o l) = translate t o (u2t (degap_in o l)) /\ u2t (degap_in o l) = degap_in o (u2t l)).
+Proof. exact (fun t o l => conj (fun l2 => tu_mixed t o l l2) (tu_spelling t o l)). Qed.
+Print Assumptions C07_tu_spelling.
+
+(* the property in IUPAC terms, end to end, for every shipped table and every input of the domain: the degapped output is the
+   codon-level specification, and for every codon it reads the symbol is the IUPAC clause (table entry / astop if an expansion is a
+   stop / the shared amino acid / X), it can start iff an expansion is a start codon, and a stop codon is unambiguous *)
+Theorem C07_translate_iupac : forall k t o l, In (k, t) tabs -> wf_C07 t o l = true ->
+  res_degap o (translate t o l) = spec_translate t o (u2t (degap_in o l)) /\
+  Forall (fun c => aa_of t (o_astop o) c = spec_aa t (o_astop o) c /\
+                   can_start t c = existsb (fun e => in_set e (g_starts t)) (expand c) /\
+                   (is_stop t c = true -> unamb c = true))
+         (codons (u2t (degap_in o l))).
+Proof. exact translate_iupac. Qed.
+Print Assumptions C07_translate_iupac.
+
+(* ---- warn=True. translate_w is the loop of cane.translate WITH its warnings.warn calls (kinds wkind, in order).
+   warn never changes the returned value or the exception; without warn nothing is emitted *)
+Theorem C07_warn_irrelevant : forall t o w l,
+  fst (translate_w t o w l) = translate t o l /\ snd (translate_w t o false l) = [].
+Proof. exact (fun t o w l => conj (warn_irrelevant t o w l) (warn_off_quiet t o l)). Qed.
+Print Assumptions C07_warn_irrelevant.
+
+(* on gap-free input the warnings are exactly spec_warns, codon by codon: first codon not a start -> (error if check_start, else)
+   WNotStart; in astarts only -> WMaybeNotStart; every ambiguous-stop codon translated -> WMaybeStop; a stop codon that is not the
+   last codon -> WStopNotLast (error if check_stop); the loop ran to the end -> WNoStop (error if check_stop) *)
+Theorem C07_warn_spec : forall t o w l, gap_after_ok o = true -> gapfree o (u2t l) = true ->
+  snd (translate_w t o w l) = spec_warns t o w (codons (u2t l)).
+Proof. exact warn_spec. Qed.
+Print Assumptions C07_warn_spec.
+
+(* the last warning of the source (cane.py:455-457, 'Last codon ... possibly is not a stop codon') is dead code: for EVERY input,
+   gaps or not, the codon left over at the end has fewer than three letters and is never in astops *)
+Theorem C07_warn_dead_branch : forall t o w l, ~ In WMaybeNoStop (snd (translate_w t o w l)).
+Proof. exact warn_dead_branch. Qed.
+Print Assumptions C07_warn_dead_branch.
+
 (* non-vacuity: a gapped RNA string with an ambiguous stop codon in the domain, standard table, default options;
    and the F10 witness (gaps after the last stop codon, complete=True, final_stop=False) *)
 Example C07_witness :
@@ -198,4 +318,23 @@ Example C07_witness_gaps :
   translate tab_1 (mk_opts true (Some false) false None "X"%byte (Some "-"%byte) (Some 2%Z)) (bs "A-T--G---AA-A--"%bs)
     = Ok (bs "-M-K-"%bs) /\
   ecount (mk_opts true (Some false) false None "X"%byte (Some "-"%byte) (Some 2%Z)) 9 = 3%Z.
+Proof. exact (conj eq_refl (conj eq_refl eq_refl)). Qed.
+
+(* the command line: the last -tt wins (33, not 4), -c makes the translation complete with the terminal stop; table 4 ends at TAA;
+   three lines, the second cannot start: the call fails; a two-record file under table 2 (AGA is a stop there, TGA is Trp) *)
+Example C07_witness_cli :
+  cli_tt [ATt 4; AComplete; ATt 33]%N = 33%N /\
+  script_str tab_33 (cli_opts [ATt 4; AComplete; ATt 33]%N) (bs "ATGTGATAAAGA"%bs) = inl [bs "MWYS"%bs] /\
+  script_str tab_4 (cli_opts [ATt 4]%N) (bs "ATGTGATAAAGA"%bs) = inl [bs "MW"%bs] /\
+  script_str tab_1 (cli_opts []) (unhex (bs "4154472d2d2d414141544747540a4343435441410a415447"%bs)) = inr ENoStart /\
+  script_recs tab_2 (cli_opts [ATt 2]%N) [bs "ATGAGA"%bs; bs "ataTGA"%bs] = ([mk_aa (bs "M"%bs); mk_aa (bs "MW"%bs)], None) /\
+  wf_C07 tab_33 (cli_opts [ATt 33]%N) (bs "ATG-TGA"%bs) = true /\
+  gcode_lookup (TStr (bs "33"%bs)) = Some (33%N, tab_33).
+Proof. exact (conj eq_refl (conj eq_refl (conj eq_refl (conj eq_refl (conj eq_refl (conj eq_refl eq_refl)))))). Qed.
+
+(* warnings: CTG is a start codon, TAR may be a stop, the stop TAA is followed by a codon; CCC cannot start *)
+Example C07_witness_warn :
+  translate_w tab_1 (default_opts false) true (bs "CTGTARAAATAAGCC"%bs) = (Ok (bs "LXK"%bs), [WMaybeStop; WStopNotLast]) /\
+  translate_w tab_1 (default_opts true) true (bs "CCCTAAAAA"%bs) = (Ok (bs "P*K"%bs), [WNotStart; WStopNotLast; WNoStop]) /\
+  translate_w tab_1 (default_opts false) true (bs "CCCTAAAAA"%bs) = (Err ENoStart, []).
 Proof. exact (conj eq_refl (conj eq_refl eq_refl)). Qed.
